@@ -109,12 +109,24 @@ def node_table(ctx):
     repo = ctx.repo
     props = repo.fn('add_single_node_properties')
     pred_of: Dict[str, str] = {}
-    for n in ast.walk(props.node):
-        if isinstance(n, ast.Assign) and len(n.targets) == 1 and \
-                isinstance(n.targets[0], ast.Subscript) and \
-                isinstance(n.targets[0].slice, ast.Constant) and isinstance(n.value, ast.Call) and \
-                isinstance(n.value.func, ast.Name):
-            pred_of[n.targets[0].slice.value] = n.value.func.id
+    # which predicate fills which node flag: add_single_node_properties is run by the finite
+    # interpreter with every predicate replaced by a marker (so assignments written one by one,
+    # through a table of (name, predicate) pairs or in a loop are all the same)
+    from ..mini import Mini, Obj, Raised, Token, Unsupported
+    insp = repo.modules['plinio.graph.inspection']
+    glob = {}
+    for st in insp.tree.body:
+        if isinstance(st, ast.FunctionDef):
+            glob[st.name] = Token('pred:' + st.name, lambda *a, _n=st.name: ('PRED', _n))
+    node = Obj('Node')
+    node.attrs['meta'] = {}
+    try:
+        Mini(glob).call_function(props.node, [node, Obj('GraphModule')])
+        for k, v in node.attrs['meta'].items():
+            if isinstance(v, tuple) and len(v) == 2 and v[0] == 'PRED':
+                pred_of[k] = v[1]
+    except (Unsupported, Raised) as ex:
+        raise AnalysisError(f'add_single_node_properties is outside the interpreted subset: {ex}')
     preds = sorted(set(pred_of.values()) | {'is_concatenate'})
     raw = classify(repo, preds)
     table = {}
